@@ -368,11 +368,11 @@ def coq_case(job: dict, ref: dict, evs: list, info: dict, d: dict | None, mods0:
         s, k, f, p, line, x = ev[:6]
         fi = frames[f]
         fl = (1 if fi[1] == '<lambda>' else 0) | (2 if fi[3] else 0)
-        tf, tl = -1, 0
+        tf, tl, tp = -1, 0, -1
         if x:
-            fl |= (4 if x[1] else 0) | (8 if x[2] else 0) | (16 if x[3] else 0)
-            tf, tl = x[4], x[5]
-        rows.append(f'({k},{f},{p},{line},{mod_index[fi[0]]},{fl},{tf},{tl})')
+            fl |= (4 if x[1] else 0) | (8 if x[2] else 0) | (16 if x[3] else 0) | (32 if x[7] else 0)
+            tf, tl, tp = x[4], x[5], x[6]
+        rows.append(f'({k},{f},{p},{line},{mod_index[fi[0]]},{fl},{tf},{tl},{tp})')
     entering = info['main_thread'] and info['kind'] == 'thread'
     cfg = (f'(mkC {C.cbool(job["trace_threads"])} {C.cbool(job["trace_modules"])} {C.cbool(info["main_thread"])} '
            f'{C.cbool(entering)} [{";".join(str(mod_index[m]) for m in mods0)}])')
